@@ -129,8 +129,9 @@ class Abort(Exception):
 
 
 # neighbours differ in exactly one component: enhanced status code only, reply code only, text only
-FAIL_REPLIES_PERM = [('550', '5.1.1 rejected'), ('550', '5.7.1 rejected'), ('554', '5.7.1 rejected'), ('550', '5.1.1 mailbox unknown')]
-FAIL_REPLIES_TEMP = [('450', '4.2.0 try later'), ('450', '4.2.1 try later'), ('451', '4.2.1 try later'), ('450', '4.2.0 busy')]
+# (reply text is UTF-8 on the wire: the last entry of each table is not ASCII)
+FAIL_REPLIES_PERM = [('550', '5.1.1 rejected'), ('550', '5.7.1 rejected'), ('554', '5.7.1 rejected'), ('550', '5.1.1 Empf\u00e4nger unbekannt')]
+FAIL_REPLIES_TEMP = [('450', '4.2.0 try later'), ('450', '4.2.1 try later'), ('451', '4.2.1 try later'), ('450', '4.2.0 sp\u00e4ter')]
 NREP = 4
 
 # slot holders (entry function > blocking call inside slimta.queue) of the bounded-pool deadlock recorded as a known finding
@@ -903,6 +904,15 @@ class Engine(object):
         want = collections.Counter((t, tuple(sorted(r)), c, msg) for t, r, c, msg in self.expected_bounces)
         got = collections.Counter((rec['of'], tuple(sorted(rec['rcpts'])), rec['code'], rec['message'])
                                   for rec in self.seen_bounces if rec['sender'])
+        if mode != 'none':
+            # C01: a recipient that failed for good is reported back to the (non-empty) sender
+            covered = set((rec['of'], r) for rec in self.seen_bounces if rec.get('enqueued') for r in rec['rcpts'])
+            for t, rs, c, msg in self.expected_bounces:
+                missing = [r for r in rs if (t, r) not in covered]
+                if missing:
+                    self.fail('C01', 'failed-recipient-never-reported-to-sender',
+                              'message %s: %r failed for good (%s %s) but no bounce naming them was enqueued' % (t, missing, c, msg))
+                    break
         nosender = [rec for rec in self.seen_bounces if not rec['sender']]
         if nosender:
             self.fail('C13', 'bounce-for-null-sender', 'a bounce was generated for a message with an empty sender: %r'
